@@ -22,7 +22,7 @@ structure WInv (song : Song) (d : DataInfo) (n : Nat) : Prop where
     ∃ k : Nat, id = (k : Int) ∧ Inv song d c' L { P with xs := k :: P.xs } ∧ (subKey t a b, k) ∈ c'.subMap ∧
       k < c'.subList.length ∧ SubMono c c'
   mac : ∀ c t c' id L P, Inv song d c L P → getMacroTrack song d n c t = .ok (c', id) →
-    ∃ k : Nat, id = (k : Int) ∧ Inv song d c' L { P with xm := k :: P.xm } ∧ k < c'.macroList.length ∧ SubMono c c'
+    ∃ k : Nat, id = (k : Int) ∧ Inv song d c' L { P with xm := k :: P.xm } ∧ (t, k) ∈ c'.macroMap ∧ k < c'.macroList.length ∧ SubMono c c'
 
 theorem subKey_mod_drum (t : Int) : 2 ≤ subKey t true false % 4 := by
   show 2 ≤ (t * 4 + 2 + 0) % 4; omega
@@ -77,7 +77,7 @@ theorem hook_succ_inv {song : Song} {d : DataInfo} (hpc : PlatformClean d) (n : 
       · exact scoped_of_plain (hpre x hx) _ _ _
       · rw [List.mem_singleton] at hx; subst hx; exact scoped_pat hlt)
     exact ⟨inv_cover_sub h2 _ hmem ⟨mds_PAT, u16 (k : Int)⟩ (List.mem_append_right _ (List.mem_append_right _ List.mem_cons_self)) (Or.inl ⟨subKey_mod_jump _ _, rfl, rfl⟩), hmono⟩
-  | data key ty arg w' pre hf hout hpre =>
+  | data key ty arg w' pre hf hout hpre _ =>
     rw [hout]
     refine ⟨inv_data hinv key ty arg pre hpre hf, ?_, ?_⟩
     · intro p hp
@@ -85,7 +85,7 @@ theorem hook_succ_inv {song : Song} {d : DataInfo} (hpc : PlatformClean d) (n : 
     · intro p hp
       rw [(getEnvelope_spec c key hinv.maps).2.2.2.1]; exact hp
   | mtab c' id w' pre _ _ hg hout hpre =>
-    obtain ⟨k, rfl, hi, hlt, hmono⟩ := ih.mac c _ c' id (w.out :: L) P hinv hg
+    obtain ⟨k, rfl, hi, _, hlt, hmono⟩ := ih.mac c _ c' id (w.out :: L) P hinv hg
     rw [hout, List.append_assoc]
     have h2 := inv_add hi (pre ++ [⟨mds_MTAB, u16 (wrap16 ((k : Int) + 1))⟩]) (by
       intro x hx
@@ -227,7 +227,7 @@ theorem sub_succ_inv {song : Song} {d : DataInfo} (n : Nat) (ih : WInv song d n)
 
 theorem mac_succ_inv {song : Song} {d : DataInfo} (n : Nat) (ih : WInv song d n) :
     ∀ c t c' id L P, Inv song d c L P → getMacroTrack song d (n + 1) c t = .ok (c', id) →
-      ∃ k : Nat, id = (k : Int) ∧ Inv song d c' L { P with xm := k :: P.xm } ∧ k < c'.macroList.length ∧ SubMono c c' := by
+      ∃ k : Nat, id = (k : Int) ∧ Inv song d c' L { P with xm := k :: P.xm } ∧ (t, k) ∈ c'.macroMap ∧ k < c'.macroList.length ∧ SubMono c c' := by
   intro c t c' id L P hinv h
   simp only [getMacroTrack] at h
   cases hl : c.macroMap.lookup t with
@@ -237,7 +237,7 @@ theorem mac_succ_inv {song : Song} {d : DataInfo} (n : Nat) (ih : WInv song d n)
     obtain ⟨rfl, rfl⟩ := h
     have hmem := lookup_some_mem _ _ _ hl
     refine ⟨k, rfl, { hinv with covMac := fun k' hk' hx => hinv.covMac k' hk' (by simp only [List.mem_cons, not_or] at hx; exact hx.2) },
-      ?_, SubMono.refl _⟩
+      hmem, ?_, SubMono.refl _⟩
     rw [← hinv.maps.macLen]; exact val_lt_of_mem hinv.maps.mac hmem
   | none =>
     rw [hl] at h
@@ -265,7 +265,7 @@ theorem mac_succ_inv {song : Song} {d : DataInfo} (n : Nat) (ih : WInv song d n)
           omega
         have hmem2 := hm2.2 _ hmem1
         have h3 := inv_mac_set hi2 hnot t hmem2 ⟨evs, n, 20000000, c1, c2, w, htr, hr, rfl⟩
-        refine ⟨c.macroList.length, rfl, h3, ?_, ?_⟩
+        refine ⟨c.macroList.length, rfl, h3, hmem2, ?_, ?_⟩
         · show c.macroList.length < (c2.macroList.set c.macroList.length w.out).length
           rw [List.length_set]
           exact hold_lt (hi2.holdM _ (by simp))
